@@ -136,7 +136,35 @@ def odd_documents():
         d = grammar.base_doc()
         grammar.DEFECTS[kind][0](d)
         docs.append(("grammar-" + kind, d))
+    # legal but unusual names: package-private getters, container type and constructor (reflection cannot see unexported methods)
+    for g in ("conn", "getS", "x", "s_1", "Ünï"):
+        for must in (None, True):
+            d = base()
+            d["services"]["s"]["getter"] = g
+            d["services"]["s"]["type"] = "*fx.T"
+            if must:
+                d["services"]["s"]["must_getter"] = True
+            docs.append(("private-getter", d))
+    d = base()
+    d["meta"].update({"container_type": "wiring", "container_constructor": "newWiring", "pkg": "p_1"})
+    d["services"]["s"]["getter"] = "GetS"
+    docs.append(("private-container", d))
     return docs
+
+
+def declared_surface(src):
+    """package clause, declared methods of every receiver (unexported ones included - reflection does not see those) and top-level
+    functions, with parameter and result types (names dropped)"""
+    import re
+    ms = set()
+    for recv, name, params, results in re.findall(r"(?m)^func \(\w+ \*?(\w+)\) (\w+)\(([^)]*)\) ?(\([^)]*\)|[^ {]*)", src):
+        if name.startswith("_"):
+            continue            # the stub has none of the private helpers
+        results = ", ".join(x.strip().split(" ")[-1] for x in results.strip("()").split(",") if x.strip())
+        params = ", ".join(x.strip().split(" ")[-1] for x in params.split(",") if x.strip())
+        ms.add((recv, name, params, results))
+    return {"package": re.findall(r"(?m)^package (\w+)", src)[:1], "methods": sorted(ms),
+            "funcs": sorted(set(re.findall(r"(?m)^func (\w+)\(", src)))}
 
 
 def makefile_workflow(v, wd):
@@ -294,6 +322,15 @@ def run(pid, tier):
             v.disagree("verdict-differs-between-modes", {"yaml": e["yaml"]},
                        {"normal": e["normal"]["exit"], "stub": e["stub"]["exit"],
                         "errors": core.Report(e["normal"]["stdout"] if e["normal"]["exit"] else e["stub"]["stdout"]).errors[:4]})
+    if pid == "C17":
+        for e in entries:
+            if e["normal"]["exit"] == 0 and e["stub"]["exit"] == 0 and e["normal"].get("out_data") and e["stub"].get("out_data"):
+                a, b = declared_surface(e["normal"]["out_data"]), declared_surface(e["stub"]["out_data"])
+                if a != b:
+                    v.disagree("api-differs", {"yaml": e["yaml"]}, {"declared_only_in_normal": [m for m in a["methods"] if m not in b["methods"]][:6],
+                                                                    "declared_only_in_stub": [m for m in b["methods"] if m not in a["methods"]][:6],
+                                                                    "package": [a["package"], b["package"]], "funcs": [a["funcs"], b["funcs"]]},
+                               tags={"family": e["family"]})
     ok_entries = [e for e in entries if e["normal"]["exit"] == 0 and e["stub"]["exit"] == 0 and not e.get("raw")]
     # ---- gofmt
     paths = []
